@@ -15,6 +15,7 @@ NOT_DECIDED = ("liveness as a whole (every byte and EOF delivered under bounded 
 DECIDED += "; R8 exhaustive scans (check_retx, segment_all, Kernel::egress, Fabric::egress_all); three structural necessary conditions of the liveness half: R9 a zero window has a recovery channel (a spontaneous emission that is not window-gated / a re-advertisement independent of the read size), R10 every segment that occupies sequence space is answered whether or not it is accepted, R11 the retransmit budget restarts when the handshake completes"
 DECIDED += "; R15 no window update once the peer's FIN has arrived; shared C16-R5 (handshake segments advertise the real receive window) and C16-R7 (a stale window is never taken: not from an older ack, and among equal acks only a wider one)"
 DECIDED += '; R3 also: the round counter is re-armed on every retransmitting path (handshake included); a retransmission reaching an orphaned socket is re-ACKed (shared C13-R9)'
+DECIDED += "; R16 no ordering comparison of two raw sequence numbers (tests are made on wrapping differences); the fixture's queue key is (deadline, emission number) (shared C19-R4)"
 ASSUMPTIONS = ["BytesMut::extend_from_slice / split_to semantics"]
 
 T = "turmoil_net::kernel::socket::Tcb::"
